@@ -408,7 +408,9 @@ class Gen:
                     self.regs[name] = base
                 elif kind == "idx":
                     i = r.randrange(len(base))
-                    p["maps"].append((name, src, ("idx", i)))
+                    lets_now = dict(p["lets"])
+                    si = "k0" if (self.o["use_lets"] and lets_now.get("k0") == i and r.random() < 0.6) else i
+                    p["maps"].append((name, src, ("idx", si)))
                     self.regs[name] = base[i]
                 else:
                     a = r.randrange(len(base))
